@@ -621,7 +621,15 @@ r_expand(const Expansion &expansion, const vector_string &args,
          bool expand_undefined, const Ignores &ignores) const {
   std::string result;
 
+  // Set when the previous node was an argument that expanded to nothing.  If
+  // that was the left operand of a ## operator, the right operand must not be
+  // glued onto whatever precedes the (empty) left operand.
+  bool prev_empty = false;
+
   for (const ExpansionNode &node : expansion) {
+    bool paste = node._paste && !prev_empty;
+    prev_empty = false;
+
     if (node._parm_number >= 0) {
       int i = node._parm_number;
 
@@ -656,16 +664,20 @@ r_expand(const Expansion &expansion, const vector_string &args,
       }
 
       if (!subst.empty()) {
-        if (result.empty() || node._paste || result.back() == '(') {
+        if (result.empty() || paste || result.back() == '(') {
           result += subst;
         } else {
           result += ' ';
           result += subst;
         }
+      } else if (!paste) {
+        // An empty operand that is itself pasted onto something to its left
+        // leaves that token as the left operand of a following ##.
+        prev_empty = true;
       }
     }
     if (!node._str.empty()) {
-      if (result.empty() || node._paste || node._str[0] == ',' || node._str[0] == ')') {
+      if (result.empty() || paste || node._str[0] == ',' || node._str[0] == ')') {
         result += node._str;
       } else {
         result += ' ';
